@@ -5,7 +5,12 @@ Correspondence, three parts (impl/impl_c11.py; judged inside Coq by model/ImgIte
        deterministic render failure at one frame) against model/ImgIter.v (the two-phase
        generator) and against the specification model/ImgIterSpec.v whose frames are the
        ones obtained by DIRECT formatting (image.seek(k); format(image, spec)) on a second
-       instance; image.tell() and loop_no after every operation;
+       instance; image.tell() and loop_no after every operation; round 4: runs of 2-4
+       consecutive seeks (before the first frame, in the first loop, in the cached loop, at the
+       end of a pass), and ENVIRONMENT changes (terminal resize, cell ratio) between yields of
+       dynamically sized images (model/ImgIterEnv.v) with every yielded frame also compared with
+       the direct formatting of that frame right after the yield under the environment then in
+       force;
  (ii)  fault enumeration: every scenario is run once per call index k of the library's calls
        to PIL convert / resize / alpha_composite / save / tobytes with a failure injected
        there, plus draw() calls whose argument is rejected after the image was opened;
@@ -27,7 +32,7 @@ LEVEL = "proof"
 EXTRA_TARGETS = ["model/ImgIterTie.vo"]
 
 HEADER = ("From Coq Require Import List ZArith Bool.\nImport ListNotations.\n"
-          "From TI Require Import model.ImgIter model.ImgIterSpec model.ImgIterTie.\nLocal Open Scope nat_scope.\n")
+          "From TI Require Import model.ImgIter model.ImgIterSpec model.ImgIterEnv model.ImgIterTie.\nLocal Open Scope nat_scope.\n")
 Z = core.z
 
 
@@ -70,6 +75,45 @@ def rand_size(rng):
     return [rng.randint(1, 8), rng.randint(1, 4)] if rng.random() < 0.85 else rng.choice(["FIT", "ORIGINAL", "AUTO"])
 
 
+DYNAMIC = ["FIT", "FIT", "AUTO", "FIT_TO_WIDTH", "ORIGINAL"]
+# specifiers whose padding is absolute: a relative padding ("" = the terminal width) is resolved once, when
+# the iterator is constructed, and is therefore not "the same specifier" after a terminal resize
+ENV_SPECS = {
+    "block": ["1.1", "1.1#", "<20.^5", "1.1#ffffff", "1.1#.3"],
+    "kitty": ["1.1+W", "1.1+L", "1.1", "1.1#+Wc0", "<12._3+W"],
+    "iterm2": ["1.1+W", "1.1+L", "1.1+A", "1.1#+Wc9", "1.1+Am1", "|14.-4+A"],
+}
+
+
+def rand_env(rng, style):
+    """An environment: terminal size, and the global cell ratio for the text-based style."""
+    if style == "block":
+        term = rng.choice([[80, 30], [40, 12], [100, 40], [24, 10], [60, 20], [33, 33], [16, 6]])
+        return {"term": term, "ratio": rng.choice([0.5, 0.5, 0.4, 0.6, 1.0, 0.25])}
+    # graphics-based styles: small terminals (a frame is term x cell pixels)
+    return {"term": rng.choice([[20, 8], [12, 6], [30, 10], [16, 12], [24, 5], [9, 9]])}
+
+
+def seek_positions(rng, n, k):
+    """k seek positions, mostly valid; consecutive ones differ by something other than +1 most of the time
+    (so that 'the last one wins' is distinguishable from 'the one before, plus one')."""
+    out = []
+    for _ in range(k):
+        r = rng.random()
+        if r < 0.1:
+            out.append(rng.choice([n, -1, n + 3]))
+        elif r < 0.3:
+            out.append(rng.choice([0, n - 1]))
+        else:
+            out.append(rng.randrange(n))
+    return out
+
+
+def seek_run(rng, n):
+    k = rng.choice([1, 1, 1, 2, 2, 2, 3, 3, 4])
+    return [["seek", p] for p in seek_positions(rng, n, k)]
+
+
 def gen_iter_case(rng, long=False):
     style = rng.choice(["block", "kitty", "iterm2", "iterm2"])
     src = anim_src(rng)
@@ -82,36 +126,88 @@ def gen_iter_case(rng, long=False):
     sizes = [rand_size(rng) for _ in range(nsz)]
     if src.get("name"):
         sizes = [[rng.randint(1, 6), rng.randint(1, 3)] for _ in range(nsz)]
+    # ENVIRONMENT dimension: a dynamically sized image whose environment changes between yields
+    envs = None
+    if not src.get("name") and rng.random() < 0.45:  # (the fixtures are large: dynamic sizes would be costly)
+        envs = []
+        while len(envs) < rng.choice([2, 2, 3]):
+            e = rand_env(rng, style)
+            if e not in envs:
+                envs.append(e)
+        sizes[rng.randrange(nsz)] = rng.choice(DYNAMIC)
+        if rng.random() < 0.8:
+            sizes[0] = rng.choice(DYNAMIC)
+        if rng.random() < 0.8:  # a cache that later passes are served from
+            repeat = rng.choice([2, 3, 3, -1, -3])
+            cached = rng.choice([True, True, n, n + 5, 100])
+    nenv = len(envs) if envs else 1
+    cur = {"size": 0, "env": 0}
+
+    def change():
+        """a change of the environment or of the size setting, to a value other than the current one"""
+        kind = "env" if envs and (rng.random() < 0.7 or nsz == 1) else "size" if nsz > 1 else None
+        if kind is None:
+            return []
+        k = nenv if kind == "env" else nsz
+        v = rng.choice([x for x in range(k) if x != cur[kind]] or [0])
+        cur[kind] = v
+        return [[kind, v]]
+
     ops = []
     total = rng.randint(3, 14) if not long else rng.randint(10, 40)
     if src.get("name") == "anim.webp":
         total = min(total, 8)
     shape = rng.random()
-    for _ in range(total):
-        r = rng.random()
-        if shape < 0.25:  # plain iteration to exhaustion
-            ops.append(["next"])
-        elif r < 0.62:
-            ops.append(["next"])
-        elif r < 0.8:
-            ops.append(["seek", rng.choice([0, 0, n - 1, rng.randrange(n), rng.randrange(n), n, -1, n + 3])])
-        elif r < 0.9 and nsz > 1:
-            ops.append(["size", rng.randrange(nsz)])
-        elif r < 0.94:
-            ops.append(["close"])
-        elif r < 0.96:
-            ops.append(["drop"])
-        else:
-            ops.append(["next"])
-    if shape < 0.25 and repeat > 0:
-        ops = [["next"]] * min(n * repeat + 2, 45)
+    if shape < 0.2:  # plain iteration to exhaustion
+        ops = [["next"]] * (min(n * repeat + 2, 45) if repeat > 0 else total)
+    elif shape < (0.8 if envs else 0.55):
+        # pass-structured: whole passes; runs of seeks before the first frame, inside a pass and at the
+        # end of a pass; size / environment changes between and inside passes
+        if rng.random() < 0.3:
+            ops += seek_run(rng, n)
+        passes = rng.choice([2, 2, 3]) if not long else rng.choice([3, 4])
+        for _ in range(passes):
+            cut = rng.randrange(n + 1) if rng.random() < 0.6 else None
+            chg = rng.randrange(n + 1) if rng.random() < 0.35 else None
+            for k in range(n):
+                if k == cut:
+                    ops += seek_run(rng, n)
+                if k == chg:
+                    ops += change()
+                ops.append(["next"])
+            if cut == n:  # the last frame of the pass has been yielded: seek instead of wrapping
+                ops += seek_run(rng, n)
+            if chg == n or rng.random() < (0.85 if envs else 0.5):
+                ops += change()
+        if n * passes > 40 and not long:
+            ops = ops[:40]
+    else:
+        while len(ops) < total:
+            r = rng.random()
+            if r < 0.6:
+                ops.append(["next"])
+            elif r < 0.8:
+                ops += seek_run(rng, n)
+            elif r < 0.9:
+                ops += change() or [["next"]]
+            elif r < 0.94:
+                ops.append(["close"])
+            elif r < 0.96:
+                ops.append(["drop"])
+            else:
+                ops.append(["next"])
     if ["drop"] in ops:  # the iterator object is gone after a drop: only the image can still be observed
         k = ops.index(["drop"])
-        ops = ops[:k + 1] + [o for o in ops[k + 1:] if o[0] == "size"]
+        ops = ops[:k + 1] + [o for o in ops[k + 1:] if o[0] in ("size", "env")]
+    spec = rng.choice(ENV_SPECS[style] if envs else SPECS[style])
     c = {"part": "iter", "style": style, "src": src, "source": rng.choice(["file", "file", "pil", "pil_file"]),
-         "spec": rng.choice(SPECS[style]), "repeat": repeat, "cached": cached, "sizes": sizes, "ops": ops,
+         "spec": spec, "repeat": repeat, "cached": cached, "sizes": sizes, "ops": ops,
          "cell": [rng.randint(2, 12), rng.randint(4, 24)], "pos0": rng.choice([0, 0, 1, 3]),
          "term": rng.choice(["wezterm", "iterm2", "konsole"])}
+    if envs:
+        c["envs"] = envs
+        if style != "block":
+            c["cell"] = [rng.randint(2, 6), rng.randint(4, 12)]
     if rng.random() < 0.15:
         c["fail_frame"] = rng.randrange(n)
     return c
@@ -146,6 +242,30 @@ ITER_CORPUS = [
      "source": "pil", "spec": "1.1", "repeat": -1, "cached": True, "sizes": [[3, 2]], "ops": [["next"], ["next"], ["next"], ["drop"]]},
     {"part": "iter", "style": "kitty", "src": {"kind": "new", "seed": 5, "w": 5, "h": 5, "mode": "P", "frames": 2, "fmt": "GIF"},
      "source": "file", "spec": "1.1+L", "repeat": 2, "cached": 100, "sizes": [[3, 2]], "ops": [["drop"]]},
+    # runs of seeks: refused before the first frame; the LAST one wins in the first loop (uncached and
+    # cached), at the end of a pass (no pass consumed) and in the cached loop; 2, 3 and 4 seeks
+    {"part": "iter", "style": "block", "src": {"kind": "new", "seed": 11, "w": 10, "h": 10, "mode": "P", "frames": 6, "fmt": "GIF"},
+     "source": "file", "spec": "1.1", "repeat": 3, "cached": False, "sizes": [[5, 3]],
+     "ops": [["seek", 2], ["seek", 4], ["next"], ["next"], ["seek", 4], ["seek", 1], ["next"], ["next"],
+             ["seek", 5], ["seek", 0], ["seek", 3], ["next"], ["next"], ["next"], ["seek", 2], ["seek", 2], ["seek", 0],
+             ["seek", 4], ["next"], ["next"], ["next"], ["next"]]},
+    {"part": "iter", "style": "kitty", "src": {"kind": "new", "seed": 11, "w": 10, "h": 10, "mode": "P", "frames": 6, "fmt": "GIF"},
+     "source": "pil", "spec": "1.1+L", "repeat": 3, "cached": True, "sizes": [[3, 2]], "cell": [4, 6],
+     "ops": [["next"], ["seek", 5], ["seek", 2], ["next"], ["next"], ["next"], ["next"], ["seek", 0], ["seek", 4], ["next"],
+             ["next"], ["next"], ["seek", 1], ["seek", 5], ["next"], ["seek", 3], ["seek", 3], ["seek", 0], ["seek", 2], ["next"],
+             ["next"], ["next"], ["next"], ["next"], ["next"]]},
+    # ENVIRONMENT: a dynamically sized image, the cache filled under one terminal size, later passes after
+    # a resize / a cell-ratio change; back to the first environment; a change inside a pass
+    {"part": "iter", "style": "block", "src": {"kind": "new", "seed": 12, "w": 24, "h": 24, "mode": "P", "frames": 3, "fmt": "GIF"},
+     "source": "file", "spec": "1.1", "repeat": 4, "cached": True, "sizes": ["FIT"],
+     "envs": [{"term": [80, 30], "ratio": 0.5}, {"term": [40, 12], "ratio": 0.5}, {"term": [40, 12], "ratio": 1.0}],
+     "ops": [["next"], ["next"], ["next"], ["env", 1], ["next"], ["next"], ["next"], ["env", 2], ["next"], ["env", 0], ["next"],
+             ["next"], ["next"], ["next"], ["next"], ["next"]]},
+    {"part": "iter", "style": "iterm2", "src": {"kind": "new", "seed": 12, "w": 24, "h": 24, "mode": "P", "frames": 3, "fmt": "GIF"},
+     "source": "pil_file", "spec": "1.1+A", "repeat": -1, "cached": 100, "sizes": ["FIT_TO_WIDTH", [3, 2]], "cell": [3, 6],
+     "envs": [{"term": [20, 8]}, {"term": [12, 6]}],
+     "ops": [["next"], ["next"], ["next"], ["next"], ["env", 1], ["next"], ["next"], ["size", 1], ["next"], ["env", 0], ["next"],
+             ["size", 0], ["next"], ["seek", 2], ["seek", 0], ["next"], ["next"]]},
     # exhaustion of a file source: the image is closed by the StopIteration handler
     {"part": "iter", "style": "block", "src": {"kind": "new", "seed": 6, "w": 5, "h": 5, "mode": "P", "frames": 2, "fmt": "GIF"},
      "source": "file", "spec": "1.1", "repeat": 2, "cached": True, "sizes": [[3, 2]],
@@ -283,8 +403,8 @@ def zll(rows):
 
 
 def op_term(o):
-    return {"next": "Next", "close": "Close", "drop": "Drop"}.get(o[0]) or (
-        f"Seek {Z(o[1])}" if o[0] == "seek" else f"SetImageSize {o[1]}")
+    return {"next": "ENext", "close": "EClose", "drop": "EDrop"}.get(o[0]) or (
+        f"ESeek {Z(o[1])}" if o[0] == "seek" else f"ESetSize {o[1]}" if o[0] == "size" else f"ESetEnv {o[1]}")
 
 
 def iter_term(c, r):
@@ -298,10 +418,11 @@ def iter_term(c, r):
     if c["source"] != "file" and exhausted:
         pil_reset_ok = r["pil_tell"] == 0
     keep = r["size_kept"] and r["pil_alive"] and r["fd_delta"] == 0 and pil_reset_ok
-    return ("{| it_n := %d; it_repeat := %s; it_cached := %s; it_cache_on := %s; it_pos0 := %s; it_table := %s; "
-            "it_hashes := %s; it_ops := %s; it_file := %s; it_obs := %s; it_keep := %s |}" % (
-                n, Z(c["repeat"]), carg, b(r["cache_on"]), Z((c.get("pos0") or 0) % n), zll(r["table"]), zl(r["hashes"]),
-                core.coq_list(c["ops"], op_term), b(c["source"] == "file"), zll([row[:5] for row in r["rows"]]), b(keep)))
+    return ("{| it_n := %d; it_repeat := %s; it_cached := %s; it_cache_on := %s; it_pos0 := %s; it_nenv := %d; "
+            "it_table := %s; it_hashes := %s; it_ops := %s; it_file := %s; it_obs := %s; it_direct := %s; it_keep := %s |}" % (
+                n, Z(c["repeat"]), carg, b(r["cache_on"]), Z((c.get("pos0") or 0) % n), r["nenv"], zll(r["table"]),
+                zl(r["hashes"]), core.coq_list(c["ops"], op_term), b(c["source"] == "file"),
+                zll([row[:5] for row in r["rows"]]), zl(r["direct"]), b(keep)))
 
 
 def fault_expect(c):
@@ -390,6 +511,9 @@ def simpler(c):
             out.append({**c, "ops": ops[:k] + ops[k + 1:]})
         if len(c["sizes"]) > 1 and not any(o[0] == "size" for o in ops):
             out.append({**c, "sizes": c["sizes"][:1]})
+        if c.get("envs") and not any(o[0] == "env" for o in ops):
+            out.append({k: v for k, v in c.items() if k != "envs"} | {"envs": c["envs"][:1]} if len(c["envs"]) > 1 else
+                       {k: v for k, v in c.items() if k != "envs"})
         for k, v in (("pos0", 0), ("cached", False), ("source", "file"), ("fail_frame", None)):
             if c.get(k) not in (v, None):
                 out.append({**c, k: v})
@@ -439,8 +563,10 @@ def src_str(s):
 def describe(c):
     if c["part"] == "iter":
         ops = " ".join(o[0] if len(o) == 1 else f"{o[0]}({o[1]})" for o in c["ops"])
+        envs = "".join(f" env{j}={e}" for j, e in enumerate(c.get("envs") or []))
         return (f"iter {c['style']} src={src_str(c['src'])} via {c['source']} spec={c['spec']!r} repeat={c['repeat']} "
-                f"cached={c['cached']} sizes={c['sizes']} pos0={c.get('pos0', 0)} fail_frame={c.get('fail_frame')} ops=[{ops}]")
+                f"cached={c['cached']} sizes={c['sizes']}{envs} pos0={c.get('pos0', 0)} fail_frame={c.get('fail_frame')} "
+                f"ops=[{ops}]")
     if c["part"] == "fault":
         return (f"fault {c['style']} src={src_str(c['src'])} via {c['source']} action={c['action']} spec={c['spec']!r} "
                 f"size={c['size']} " + " ".join(f"{k}={c[k]}" for k in ("bad", "repeat", "cached", "take", "end", "kbd", "style_args") if k in c))
@@ -458,6 +584,8 @@ def explain(c, r):
     if c["part"] == "iter":
         return {"N": r.get("N"), "table": r.get("table"),
                 "rows(code,frame,tell,loop_no,unclosed_images)": [x[:5] for x in r.get("rows", [])][:30],
+                "direct(frame formatted directly right after each yield)": r.get("direct", [])[:30],
+                "hashes": r.get("hashes"),
                 "size_kept": r.get("size_kept"), "fd_delta": r.get("fd_delta"), "pil_alive": r.get("pil_alive"),
                 "pil_tell": r.get("pil_tell")}
     if c["part"] == "fault":
@@ -485,7 +613,9 @@ def run(ctx):
     hist = {"part": {}, "iter_style": {}, "iter_ops": {}, "iter_outcomes": {}, "iter_cache_on": 0, "iter_fail_frame": 0,
             "iter_sources": {}, "fault_action": {}, "fault_runs": 0, "fault_hits_by_method": {}, "fault_raised": {},
             "fault_images_opened": 0, "fault_images_left_unclosed": 0, "iter_images_opened": 0, "iter_repeat": {},
-            "iter_cached_arg": {}, "iter_len": {}, "url_ops": {}, "url_errors": {}}
+            "iter_cached_arg": {}, "iter_len": {}, "url_ops": {}, "url_errors": {},
+            "iter_seek_run_len(acknowledged seeks between two next)": {}, "iter_env_cases": 0,
+            "iter_yields_after_env_change_with_cache": 0, "iter_yields_whose_direct_frame_changed_with_env": 0}
 
     def inc(d, k, v=1):
         d[str(k)] = d.get(str(k), 0) + v
@@ -509,8 +639,25 @@ def run(ctx):
                 inc(hist["iter_ops"], o[0])
             for row in r["rows"]:
                 inc(hist["iter_outcomes"], OUT_NAMES.get(row[0], row[0]))
+            hist["iter_env_cases"] += bool(c.get("envs"))
+            runlen, env_changed, seen = 0, False, {}
+            for o, row, d in zip(c["ops"], r["rows"], r["direct"]):
+                if o[0] == "seek" and row[0] == 4:
+                    runlen += 1
+                elif o[0] == "next":
+                    if runlen and row[0] == 0:
+                        inc(hist["iter_seek_run_len(acknowledged seeks between two next)"], runlen)
+                    runlen = 0
+                    if row[0] == 0:
+                        if env_changed and r["cache_on"]:
+                            hist["iter_yields_after_env_change_with_cache"] += 1
+                        if seen.get(row[2], d) != d:
+                            hist["iter_yields_whose_direct_frame_changed_with_env"] += 1
+                        seen[row[2]] = d
+                elif o[0] == "env":
+                    env_changed = True
             kinds = {o[0] for o in c["ops"]}
-            if sum(1 for row in r["rows"] if row[0] == 0) >= 2 and (kinds & {"seek", "size", "close", "drop"} or
+            if sum(1 for row in r["rows"] if row[0] == 0) >= 2 and (kinds & {"seek", "size", "env", "close", "drop"} or
                                                                    any(row[0] == 1 for row in r["rows"])):
                 distinct.add(signature(c))
         elif c["part"] == "fault":
@@ -560,13 +707,19 @@ def run(ctx):
                      "fault enumeration with Image.open / Image.close pairing + fd / temp-file observation",
         "evaluations": evaluations,
         "distinct_nontrivial": len(distinct),
-        "rule": "iter: corpus + random histories (3-40 ops of next / seek incl. out-of-range / close / drop / size change; repeat "
-                "1,2,3,-1,-3; cached bool or int around n_frames; 1-3 image sizes incl. dynamic ones; block / kitty / iterm2 with "
-                "LINES, WHOLE and ANIM specifiers; file, PIL-from-file and PIL-from-bytes sources; lion.gif, anim.webp and "
-                "synthetic GIF/WEBP of 2-6 frames; initial seek position; optional deterministic failure of one frame); per "
-                "operation: outcome, frame identity against direct formatting, image.tell(), loop_no, images opened for the "
-                "iterator and not yet closed.  Non-trivial: >= 2 frames yielded and a seek / size change / close / drop or an "
-                "exhaustion.  fault: each scenario (format / str / draw / animated draw / iteration with early close, exhaustion "
+        "rule": "iter: corpus + random histories (3-45 ops of next / seek incl. out-of-range / close / drop / size change / "
+                "environment change; three shapes: plain iteration, pass-structured (whole passes with a run of seeks before the "
+                "first frame, inside a pass or at the end of a pass, and a size / environment change inside or between passes), "
+                "free mix; seeks come in RUNS of 1-4 consecutive calls (histogram iter_seek_run_len); repeat 1,2,3,-1,-3; cached "
+                "bool or int around n_frames; 1-3 image size settings incl. dynamic ones (FIT, AUTO, FIT_TO_WIDTH, ORIGINAL); "
+                "~40% of the cases carry 2-3 ENVIRONMENTS (terminal size; global cell ratio for the block style) with at least one "
+                "dynamic size setting and absolute-padding specifiers, the environment changing between yields; block / kitty / "
+                "iterm2 with LINES, WHOLE and ANIM specifiers; file, PIL-from-file and PIL-from-bytes sources; lion.gif, anim.webp "
+                "and synthetic GIF/WEBP of 2-6 frames; initial seek position; optional deterministic failure of one frame); per "
+                "operation: outcome, frame identity against direct formatting under the configuration in force (table per "
+                "(size setting, environment) visited) AND against the direct formatting of that frame right after the yield, "
+                "image.tell(), loop_no, images opened for the iterator and not yet closed.  Non-trivial: >= 2 frames yielded and "
+                "a seek / size change / environment change / close / drop or an exhaustion.  fault: each scenario (format / str / draw / animated draw / iteration with early close, exhaustion "
                 "or drop incl. before the first frame / n_frames / draw with a rejected repeat, cached or style argument) x every "
                 "index k of the library's PIL convert/resize/alpha_composite/save/tobytes calls (first 8 in the quick tier for "
                 "generated scenarios, all for the corpus); one evaluation per run; non-trivial: the fault was reached or the "
@@ -586,6 +739,11 @@ def run(ctx):
             "validated per case against direct formatting on a second instance)",
             "hash(rendered_size) is injective on the sizes of the history (hypothesis of imgiter_cache_transparent; the real "
             "hashes are fed to the model in the correspondence)",
+            "environment histories: the rendered size is a function rsize(size setting, environment) and a frame a function of "
+            "(frame number, rendered size) — true of terminal resizes and of cell-ratio changes for the block style; a change of "
+            "the CELL SIZE that leaves the rendered size in cells unchanged alters graphics-style frames (pixel size) without "
+            "altering the cache key: not generated (observation reported to the coordinator); padding given RELATIVE to the "
+            "terminal size is resolved when the iterator is constructed, so environment-changing histories use absolute padding",
             "file-descriptor balance, temp-file lifetime and survival of the caller's PIL image depend on Pillow, the OS and "
             "CPython: observed at run time (parts ii, iii), not proved; what is proved (skeleton theorems) is that every image "
             "obtained from _get_image() reaches _close_image() on every path and under every fault position, and what is "
